@@ -35,7 +35,7 @@ fn literal(mut idx: u64) -> String {
 
 /// Non-ASCII literals: characters whose case relations are not ASCII-like (final
 /// sigma, long s, dotted capital I, sharp s), an astral character, and a dot.
-const NA: [&str; 14] = ["\u{3a3}", "\u{3c3}", "\u{3c2}", "\u{17f}", "S", "s", "\u{e9}", "\u{c9}", "\u{130}", "i", "\u{df}", "\u{1F600}", "\u{39f}", "."];
+const NA: [&str; 16] = ["\u{3a3}", "\u{3c3}", "\u{3c2}", "\u{17f}", "S", "s", "\u{e9}", "\u{c9}", "\u{130}", "i", "\u{df}", "\u{1F600}", "\u{39f}", ".", "\u{1c5}", "\u{1c6}"];
 
 fn na_count(maxlen: u32) -> u64 {
     (1..=maxlen).map(|l| (NA.len() as u64).pow(l)).sum()
